@@ -3,7 +3,7 @@ import QtVerif.Model.Sequence
 /-! Line-protocol driver for the sequence model (C19). One case per line:
 
 `run <cancelArmed> <flushLast> <cap> <maxItems> <horizon> <fuel> <enabled> <writable> <hasExpr> <boolean> <integer>
-     <min|-> <max|-> { | <at> <rank> <hops> <opId> (seq <rep> <n> v.. <m> d.. | expr <0|1> | en <0|1> | bad) }*`
+     <min|-> <max|-> <disLat> <disRaise> <enLat> <enRaise> { | <at> <rank> <hops> <opId> (seq <rep> <n> v.. <m> d.. | expr <0|1> | en <0|1> | bad) }*`
 
 values: `n<twice>` | `bt` | `bf`.  Reply: `ok <finished> <stopped> <overlap> <active> <enabled> <hasExpr> <now> m<marks> <inFlightOk>;ev;ev…`
 with ev = `s:<t>:<sid>:<val>` | `r:<t>:<opId>:<res>`. -/
@@ -91,7 +91,7 @@ def splitBar (ws : List String) : List (List String) :=
 
 def runLine (ws : List String) : Option String := do
   match splitBar ws with
-  | ["run", fa, fb, cap, maxItems, horizon, fuel, en, wr, ex, bo, it, mn, mx] :: ops =>
+  | ["run", fa, fb, cap, maxItems, horizon, fuel, en, wr, ex, bo, it, mn, mx, dl, dr, el, er] :: ops =>
     let fix : Fix := ⟨← bit? fa, ← bit? fb⟩
     let cap ← cap.toNat?
     let maxItems ← maxItems.toNat?
@@ -99,7 +99,11 @@ def runLine (ws : List String) : Option String := do
     let fuel ← fuel.toNat?
     let p : Port := ⟨← bit? en, ← bit? wr, ← bit? ex, ← bit? bo, ← bit? it, ← optInt? mn, ← optInt? mx, none⟩
     let timers ← ops.mapM parseTimed
-    let s0 := St.init p cap maxItems
+    let dl ← dl.toNat?
+    let dr ← bit? dr
+    let el ← el.toNat?
+    let er ← bit? er
+    let s0 := { St.init p cap maxItems with disLat := dl, disRaise := dr, enLat := el, enRaise := er }
     let s0 := timers.foldl (fun s t => s.addTimer t.time t.rank t.h) s0
     let s0 := s0.addTimer horizon 2 .stop
     let (s, fin, inv) := runChecked fix fuel s0 true
